@@ -363,6 +363,75 @@ brk("c14-fk-columns-peekable-separator-inverted", ["C14"], "src/backend/mysql/fo
         }
         write!(sql, ")").unwrap();""", "C14.R1")
 
+ben("c08-join-keywords-lookup-table", ["C08", "C07"], "src/backend/query_builder.rs",
+    """            match join_type {
+                JoinType::Join => "JOIN",
+                JoinType::CrossJoin => "CROSS JOIN",
+                JoinType::InnerJoin => "INNER JOIN",
+                JoinType::LeftJoin => "LEFT JOIN",
+                JoinType::RightJoin => "RIGHT JOIN",
+                JoinType::FullOuterJoin => "FULL OUTER JOIN",
+            }""",
+    """            {
+                const KEYWORDS: [(JoinType, &str); 6] = [
+                    (JoinType::Join, "JOIN"),
+                    (JoinType::CrossJoin, "CROSS JOIN"),
+                    (JoinType::InnerJoin, "INNER JOIN"),
+                    (JoinType::LeftJoin, "LEFT JOIN"),
+                    (JoinType::RightJoin, "RIGHT JOIN"),
+                    (JoinType::FullOuterJoin, "FULL OUTER JOIN"),
+                ];
+                KEYWORDS
+                    .iter()
+                    .find(|(ty, _)| ty == join_type)
+                    .map_or("", |(_, keyword)| keyword)
+            }""")
+brk("c08-join-keywords-table-misses-a-row", ["C08"], "src/backend/query_builder.rs",
+    """            match join_type {
+                JoinType::Join => "JOIN",
+                JoinType::CrossJoin => "CROSS JOIN",
+                JoinType::InnerJoin => "INNER JOIN",
+                JoinType::LeftJoin => "LEFT JOIN",
+                JoinType::RightJoin => "RIGHT JOIN",
+                JoinType::FullOuterJoin => "FULL OUTER JOIN",
+            }""",
+    """            {
+                const KEYWORDS: [(JoinType, &str); 5] = [
+                    (JoinType::Join, "JOIN"),
+                    (JoinType::CrossJoin, "CROSS JOIN"),
+                    (JoinType::InnerJoin, "INNER JOIN"),
+                    (JoinType::RightJoin, "RIGHT JOIN"),
+                    (JoinType::FullOuterJoin, "FULL OUTER JOIN"),
+                ];
+                KEYWORDS
+                    .iter()
+                    .find(|(ty, _)| ty == join_type)
+                    .map_or("", |(_, keyword)| keyword)
+            }""", "C08.R1")
+brk("c08-join-keywords-table-wrong-text", ["C08"], "src/backend/query_builder.rs",
+    """            match join_type {
+                JoinType::Join => "JOIN",
+                JoinType::CrossJoin => "CROSS JOIN",
+                JoinType::InnerJoin => "INNER JOIN",
+                JoinType::LeftJoin => "LEFT JOIN",
+                JoinType::RightJoin => "RIGHT JOIN",
+                JoinType::FullOuterJoin => "FULL OUTER JOIN",
+            }""",
+    """            {
+                const KEYWORDS: [(JoinType, &str); 6] = [
+                    (JoinType::Join, "JOIN"),
+                    (JoinType::CrossJoin, "CROSS JOIN"),
+                    (JoinType::InnerJoin, "INNER JOIN"),
+                    (JoinType::LeftJoin, "LEFT JOIN"),
+                    (JoinType::RightJoin, "RIGHT OUTER"),
+                    (JoinType::FullOuterJoin, "FULL OUTER JOIN"),
+                ];
+                KEYWORDS
+                    .iter()
+                    .find(|(ty, _)| ty == join_type)
+                    .map_or("", |(_, keyword)| keyword)
+            }""", "C08.R")
+
 # ---- C19 -------------------------------------------------------------------------------------------------------
 brk("c19-all-to-any", ["C19"], "sea-query-derive/src/lib.rs",
     "        && name.chars().all(|c| c == '_' || c.is_ascii_alphanumeric())", "        && name.chars().any(|c| c == '_' || c.is_ascii_alphanumeric())", "C19.R1:predicate")
